@@ -127,7 +127,7 @@ func latin(content []byte) string {
 
 func ascii(content []byte) bool {
 	for _, b := range content {
-		if textChars[b] != T {
+		if b >= 0x80 || textChars[b] != T {
 			return false
 		}
 	}
